@@ -578,7 +578,7 @@ def r86(chk, m):
         made = {name: the(name, fmt, doc, trim) for name, (fmt, trim) in commands.items()}
         h = TH()
         h.should_inline = lambda fname, node, info: True
-        it = A.Interp(model=m, scope=fn, hooks=h, max_iter=12, exc_edges=False, inline=6, heap=True, precise_exc=True)
+        it = A.Interp(model=m, scope=fn, hooks=h, max_iter=12, exc_edges=False, inline=12, heap=True, precise_exc=True)
         outs = it.run_function(fn, env={'self': made[which], 'tex': A.Obj('tex', {}), '__the': made})
         if it.imprecise or it.unknown_branches:
             return None, '; '.join(sorted(set(list(it.imprecise) + list(it.unknown_branches)))[:3])
